@@ -136,6 +136,7 @@ def eng_limbcov(f, sub, prop):
     nret = limbcov.run_limbdeps(f, sub, prop, flt)
     limbcov.run_limbseq(f, sub, prop, flt)
     limbcov.run_widecov(f, sub, prop, flt)
+    limbcov.run_slicehead(f, sub, prop, flt)
     if prop in ("C05", "C18"):
         if limbcov.run_fullwrite(f, sub, prop) < 10:
             sub.oblige(ok=False)
